@@ -194,7 +194,8 @@ def run(ctx):
             body = bytes([n]) + bytes(rng.getrandbits(8) for _ in range(40))
             body = body[:1 + 2 + 2 + 4 + max(0, 8 * n + 0) // 8 + 6 + 1 + 1 + rng.choice([0, 0, 2])]
             pk.append(list(defs.mk_packet(body, apid=rng.choice([5, 5, 5, 4, 6]), seq=rng.randrange(16384))))
-        for route in (("obj",), ("obj", "shared"), ("xml", "prefix", False, False), ("xml", "default", True, False)):
+        for route in (("obj",), ("obj", "shared"), ("obj", "rev"), ("xml", "prefix", False, False), ("xml", "default", True, False),
+                      ("xml", "prefix", False, False, "rev")):
             try:
                 x0 = xdoc.make(d, route)
             except Exception as e:  # noqa: BLE001
@@ -206,7 +207,8 @@ def run(ctx):
     # ---- rich random definitions
     for i in range(40 if q else 800):
         g = gendefs.DefGen(rng).build()
-        route = [("obj",), ("xml", "prefix", False, False), ("xml", "none", True, True), ("xml", "default", False, False), ("obj", "shared")][i % 5]
+        route = [("obj",), ("xml", "prefix", False, False), ("xml", "none", True, True), ("xml", "default", False, False), ("obj", "shared"), ("obj", "rev"),
+                 ("xml", "prefix", True, False, "rev")][i % 7]
         try:
             x0 = xdoc.make(g.d, route)
         except Exception as e:  # noqa: BLE001
